@@ -712,6 +712,7 @@ async def run_program(spec: dict, rec: Rec, *, runtime=None, retry_builder=None,
     rec.consumer_finished = consumer.done()
     try:
         rec.publish_left = handler._external_adapter._queues.publish_queue.qsize()
+        rec.publish_left_types = sorted({type(x).__name__ for x in list(getattr(handler._external_adapter._queues.publish_queue, "_queue", []))})
     except Exception:  # noqa: BLE001
         rec.publish_left = None
     for t in (consumer, stim):
